@@ -1,4 +1,5 @@
 import AriVerif.Errors
+import AriVerif.Gen.Docs
 import AriVerif.Props.C05
 import AriVerif.Lemmas.Wire
 /-!
@@ -53,6 +54,30 @@ def libClasses : List String :=
 theorem c08_table : ∀ m ∈ methods18, ∀ cls ∈ libClasses,
     (cls = "ConflictingSessionError" → m = "NNS") →
     subtypeCode m (mroOf cls) = Spec.ariCode m cls := by
+  decide +kernel
+
+/-- classes the adapter interface documents (`:raises` clauses, **generated from the docstrings on
+    every run**) for the adapter methods the `_on_<m>` handler calls (**generated from server.py**). -/
+def docClasses (m : String) : List String :=
+  ((lookup m Gen.adapterCalls).getD []).flatMap fun f => (lookup f Gen.raisesDoc).getD []
+
+/-- **C08 (the designation is the documented contract, ⊇).** Every exception class an adapter method's
+    documentation allows it to raise gets a subtype code on the wire method that calls it — so the
+    hand-written `Spec.ariCode` promises at least what interfaces/*.py promises its users. -/
+theorem c08_doc_sound : ∀ m ∈ methods18, ∀ cls ∈ docClasses m, (Spec.ariCode m cls).isSome = true := by
+  decide +kernel
+
+/-- **C08 (the designation is the documented contract, ⊆).** Conversely a designated class is a
+    documented one or a direct subclass of a documented one (ConflictingSessionError under
+    CreditsError for `notify_new_session`) — except for MDA, whose docstring documents no exception
+    while the ARI protocol and the property text type CreditsError/NotificationError for it. -/
+theorem c08_doc_complete : ∀ m ∈ methods18, m ≠ "MDA" → ∀ cls ∈ libClasses,
+    (Spec.ariCode m cls).isSome = true →
+    cls ∈ docClasses m ∨ ((lookup cls Gen.parents).getD "" ∈ docClasses m) := by
+  decide +kernel
+
+/-- all 18 handlers were found in server.py. -/
+theorem c08_handlers_covered : methods18.all ((Gen.adapterCalls.map (·.1)).contains ·) = true := by
   decide +kernel
 
 /-- every generated writer belongs to one of the 18 methods and vice versa. -/
